@@ -17,11 +17,12 @@ HASH, BANG = ord("#"), ord("!")
 class WaitAuto:
     """state: ('w', q) waiting, q = derivative state of P | ('m', r) after the wait, r = rest of "#" | ('h', r) in a handler ("!")"""
 
-    def __init__(self, psem, ntry):
+    def __init__(self, psem, ntry, after=HASH, handler=BANG):
         self.p = psem
         self.ntry = ntry
-        self.after = rx.lit(b"#")
-        self.handler = rx.lit(b"!")
+        self.a, self.h = after, handler
+        self.after = rx.lit(bytes([after]))
+        self.handler = rx.lit(bytes([handler]))
 
     def start(self):
         return ("w", self.p)
@@ -73,7 +74,7 @@ class WaitAuto:
         return rx.nullable(st[1])
 
     def sets(self):
-        return rx.sets_in(self.p) | {frozenset([HASH]), frozenset([BANG])}
+        return rx.sets_in(self.p) | {frozenset([self.a]), frozenset([self.h])}
 
 
 def run(ctx: Ctx):
@@ -95,8 +96,29 @@ def run(ctx: Ctx):
                     # self-overlapping literals exercise the restart rule
                     a = bytes(rng.choice(b"ab") for _ in range(rng.randrange(2, 6)))
                     p = gen.N("lit", bs=a, form=rng.choice("ssi"))
-            elif r < 0.8:
+            elif r < 0.7:
                 p = g.regex(set())
+            elif r < 0.85:
+                # a sequence of separate patterns, each with its own alphabet: inverted sets, wildcards and classes next to literals
+                # (the restart transitions of a later part must still see what the first part can begin with)
+                parts = []
+                for _ in range(rng.choice([2, 2, 3])):
+                    q = rng.random()
+                    if q < 0.45:
+                        items = [("ch", rng.choice(b"abxy01")) for _ in range(rng.choice([1, 1, 2]))]
+                        tree = ("set", items, True)
+                    elif q < 0.55:
+                        tree = ("any",)
+                    elif q < 0.7:
+                        tree = ("cls", rng.choice("wWdDsS"))
+                    elif q < 0.85:
+                        tree = ("set", [("ch", rng.choice(b"abxy01")) for _ in range(rng.choice([1, 2, 3]))], False)
+                    else:
+                        tree = None
+                    if tree is not None and rng.random() < 0.25:
+                        tree = ("seq", [tree, ("op", ("ch", rng.choice(b"abxy")), rng.choice("?*"))]) if rng.random() < 0.5 else ("op", tree, "+")
+                    parts.append(gen.N("rx", tree=tree, binary=False) if tree is not None else gen.N("lit", bs=bytes([rng.choice(b"abxy01")]), form="s"))
+                p = gen.N("concat", parts=parts)
             else:
                 p = gen.N("concat", parts=[g.literal(set()), g.regex(set()) if rng.random() < 0.5 else g.literal(set())])
         sem = gen.pat_sem(p)
@@ -104,30 +126,43 @@ def run(ctx: Ctx):
             continue
         fs = rx.first(sem) | gen.tail_open(sem)
         alls = set().union(*rx.sets_in(sem)) if rx.sets_in(sem) else set()
+        after, handler = HASH, BANG
         if HASH in fs or BANG in fs or HASH in alls or BANG in alls:
-            continue
+            # patterns with inverted sets / wildcards contain every byte: the statement after the wait and the handler get bytes
+            # the pattern cannot continue with (when there are any), and may well be bytes the pattern can start with
+            free = [b for b in b"#!xyq~01" if b not in gen.tail_open(sem)]
+            if len(free) < 2:
+                continue
+            after, handler = free[0], free[1]
+            ctx.count("wait_programs_sharing_bytes_with_follow")
         ntry = rng.choice([0, 0, 1, 2])
-        body = " wait %s;\n \"#\";\n" % gen.pat_src(p)
+        body = " wait %s;\n %s;\n" % (gen.pat_src(p), gen.spell_string(bytes([after])))
         for _ in range(ntry):
-            body = " try {\n" + body + " }\n catch {\n  \"!\";\n }\n"
+            body = " try {\n" + body + " }\n catch {\n  %s;\n }\n" % gen.spell_string(bytes([handler]))
         src = "parser {\n" + body + " end;\n}\n"
         extra = []
         # guided: the pattern's own bytes with restarts
-        for _ in range(6):
+        # bytes the pattern names: members of its small sets, and what its inverted sets exclude
+        named = sorted(set().union(*[(x if len(x) <= 128 else (set(range(256)) - set(x))) for x in rx.sets_in(sem)]) - {rx.END}) or [97]
+        for wi in range(10):
             w = bytearray()
             q = sem
             for _ in range(rng.randrange(2, 14)):
                 f = sorted(rx.first(q) - {rx.END})
-                if f and rng.random() < 0.75:
+                r = rng.random()
+                if wi >= 6 and r < 0.8:
+                    b = rng.choice(named)       # mismatches on named bytes in the middle of a partial match: the restart rule at work
+                elif f and r < 0.75:
                     b = rng.choice(f)
                 else:
                     b = rng.choice(sorted(rx.first(sem) - {rx.END}) or [97])
                 w.append(b)
                 d = rx.deriv(q, b)
                 q = d if d != rx.EMPTY else sem
-            w += rng.choice([b"#", b"#!", b"!", b"##", b""])
+            A, H = bytes([after]), bytes([handler])
+            w += rng.choice([A, A + H, H, A + A, b""])
             extra.append(bytes(w))
-        todo.append((src, WaitAuto(sem, ntry), extra))
+        todo.append((src, WaitAuto(sem, ntry, after, handler), extra))
     ctx.count("wait_programs", len(todo))
     ctx.sample({"program": todo[0][0], "strings": [x.decode("latin-1") for x in todo[0][2][:3]]})
     lang.check_languages(ctx, todo, rng, "c16", strings_budget=130 if quick else 500, sweep_states=5 if quick else 10, per_batch=30, max_reps=5)
